@@ -266,17 +266,20 @@ fn other_decoders(w: &World, rng: &mut Rng, frames: &[Frame], trace: &mut Trace,
             fuzz_one("signed_entry", &mutate(rng, &bytes), |b| postcard::from_bytes::<SignedEntry>(b).map_err(|e| e.to_string()), trace, sum);
         }
     }
-    // author heads
-    let mut h = AuthorHeads::default();
-    for a in 1..=w.authors.len() as i64 {
-        if rng.chance(2, 3) {
-            h.insert(w.author(a).id(), 1 + rng.below(300) as u64);
+    // author heads (no size limit: every author is kept, including authors sharing a head timestamp)
+    for round in 0..6 {
+        let mut h = AuthorHeads::default();
+        let pool = if round % 2 == 0 { 3 } else { 300 };
+        for a in 1..=w.authors.len() as i64 {
+            if rng.chance(2, 3) {
+                h.insert(w.author(a).id(), 1 + rng.below(pool) as u64);
+            }
         }
-    }
-    let bytes = h.encode(None).unwrap();
-    trace.emit(json!({"ev":"RT","dec":"heads","same": AuthorHeads::decode(&bytes).map(|b| b == h).unwrap_or(false)}));
-    for _ in 0..8 {
-        fuzz_one("heads", &mutate(rng, &bytes), |b| AuthorHeads::decode(b).map_err(|e| e.to_string()), trace, sum);
+        let bytes = h.encode(None).unwrap();
+        trace.emit(json!({"ev":"RT","dec":"heads","same": AuthorHeads::decode(&bytes).map(|b| b == h).unwrap_or(false)}));
+        for _ in 0..3 {
+            fuzz_one("heads", &mutate(rng, &bytes), |b| AuthorHeads::decode(b).map_err(|e| e.to_string()), trace, sum);
+        }
     }
     // capability
     for cap in [Capability::Write(w.ns.clone()), Capability::Read(w.nsid())] {
